@@ -83,6 +83,9 @@ func NewContext() *Context {
 // NewContextWith returns a fully formed context using the data
 // provided.
 func NewContextWith(data map[string]interface{}) *Context {
+	if data == nil {
+		data = map[string]interface{}{}
+	}
 	c := &Context{
 		Context: context.Background(),
 		data:    data,
@@ -120,6 +123,9 @@ func (c *Context) isSet(key string) bool {
 // provided and setting the outer context with the passed
 // seccond argument.
 func NewContextWithOuter(data map[string]interface{}, out *Context) *Context {
+	if data == nil {
+		data = map[string]interface{}{}
+	}
 	c := &Context{
 		Context: context.Background(),
 		data:    data,
